@@ -1345,3 +1345,71 @@ Proof.
     unfold has_nonempty, id_attr, plain_is. cbn [existsb aname nspace nlocal aval is_empty andb].
     rewrite bytes_eqb_refl, Hn'. reflexivity.
 Qed.
+
+(* ------------------------------------- the completion in terms of the stream *)
+
+Lemma cfg_of_ns p : c_ns (cfg_of p) = p_out_ns p.
+Proof. reflexivity. Qed.
+
+Lemma cfg_of_from_server p : p_out_ns p = so_ns_server -> c_from (cfg_of p) = p_local p.
+Proof. intro H. unfold cfg_of. cbn [c_from]. rewrite H, bytes_eqb_refl. reflexivity. Qed.
+
+Lemma cfg_of_from_other p : p_out_ns p <> so_ns_server -> c_from (cfg_of p) = [].
+Proof.
+  intro H. unfold cfg_of. cbn [c_from].
+  destruct (bytes_eqb (p_out_ns p) so_ns_server) eqn:E; [apply bytes_eqb_eq in E; contradiction|reflexivity].
+Qed.
+
+(* for every stream - whatever the default name space of the peer's header and
+   whatever the framing - a stanza is completed with the content name space of
+   OUR output stream; it gets the local address as from exactly on jabber:server
+   output streams, and on the others nothing but the id is ever added *)
+Lemma completion_params p id n a kids :
+  id <> [] -> is_stanza_name n = true ->
+  exists n1 a1 extra,
+    spec_top (cfg_of p) id (Elem n a kids) = Elem n1 a1 (map strip_tree kids) /\
+    nlocal n1 = nlocal n /\
+    (nspace n = [] -> nspace n1 = p_out_ns p) /\ (nspace n <> [] -> n1 = n) /\
+    has_nonempty s_id a1 = true /\
+    (p_out_ns p = so_ns_server -> p_local p <> [] -> has_nonempty s_from a1 = true) /\
+    a1 = strip_xmlns n1 (filter (fun x => negb (dropped x)) a ++ extra) /\
+    incl extra [from_attr (p_local p); id_attr id] /\
+    (p_out_ns p <> so_ns_server -> incl extra [id_attr id]).
+Proof.
+  intros Hid Hs.
+  set (c := cfg_of p).
+  set (extra := (if negb (is_empty (c_from c)) && negb (has_nonempty s_from a) then [from_attr (c_from c)] else [])
+                ++ (if has_nonempty s_id a then [] else [id_attr id])).
+  assert (Hsh : spec_attrs c id a = filter (fun x => negb (dropped x)) a ++ extra) by reflexivity.
+  exists (if is_empty (nspace n) then mkname (c_ns c) (nlocal n) else n).
+  exists (strip_xmlns (if is_empty (nspace n) then mkname (c_ns c) (nlocal n) else n) (spec_attrs c id a)).
+  exists extra. cbn [spec_top]. rewrite Hs. split; [reflexivity|]. split.
+  { destruct (is_empty (nspace n)); reflexivity. }
+  split. { intro H. rewrite H. reflexivity. }
+  split. { intro H. destruct (nspace n) eqn:E; [congruence|reflexivity]. }
+  split. { rewrite has_nonempty_strip by reflexivity. apply spec_attrs_has_id. exact Hid. }
+  split.
+  { intros Hsrv Hl. rewrite has_nonempty_strip by reflexivity. apply spec_attrs_has_from.
+    unfold c. rewrite (cfg_of_from_server p Hsrv). exact Hl. }
+  split. { rewrite Hsh. reflexivity. }
+  split.
+  - unfold extra. intros x Hx. apply in_app_or in Hx. destruct Hx as [Hx|Hx].
+    + destruct (negb (is_empty (c_from c)) && negb (has_nonempty s_from a)) eqn:E; [|contradiction].
+      destruct Hx as [<-|[]]. left.
+      destruct (bytes_eqb (p_out_ns p) so_ns_server) eqn:Es.
+      * apply bytes_eqb_eq in Es. unfold c. rewrite (cfg_of_from_server p Es). reflexivity.
+      * assert (Hne : p_out_ns p <> so_ns_server).
+        { intro Heq. rewrite Heq, bytes_eqb_refl in Es. discriminate. }
+        unfold c in E. rewrite (cfg_of_from_other p Hne) in E. discriminate.
+    + destruct (has_nonempty s_id a); [contradiction|]. destruct Hx as [<-|[]]. right. left. reflexivity.
+  - intros Hne x Hx. unfold extra in Hx. unfold c in Hx. rewrite (cfg_of_from_other p Hne) in Hx.
+    cbn [is_empty negb andb app] in Hx. destruct (has_nonempty s_id a); [contradiction|]. exact Hx.
+Qed.
+
+(* negotiateSession configures the stanza encoder from the OUTPUT stream: the
+   facts [cfg_of] mirrors, read from session.go by the translator *)
+Lemma encoder_setup_tables :
+  so_se_ns_field = str "s.out.Info.XMLNS" /\
+  so_se_from_cond = str "s.out.Info.XMLNS == stanza.NSServer" /\
+  so_se_from_value = str "s.LocalAddr()".
+Proof. repeat split; vm_compute; reflexivity. Qed.
